@@ -9,6 +9,7 @@ import (
 	"encoding/hex"
 	"encoding/json"
 	"fmt"
+	"go/ast"
 	"go/parser"
 	"go/token"
 	"os"
@@ -32,7 +33,14 @@ type Case struct {
 	MapSeed uint64            `json:"map_seed"`
 	Repeat  int               `json:"repeat"`
 	Full    bool              `json:"full,omitempty"`
+	// Mode "rebuild": instead of main(), parse the grammar once and build the
+	// parser twice from the same grammar value (library use of the builder).
+	Mode string `json:"mode,omitempty"`
 }
+
+// RebuildFunc parses the grammar once and builds it twice with the flags of
+// the case; it returns the two emitted texts and error texts.
+type RebuildFunc func(c *Case, grammar []byte) (out1, out2 []byte, err1, err2 string)
 
 // FileSum summarises a file.
 type FileSum struct {
@@ -42,23 +50,24 @@ type FileSum struct {
 
 // Run is the observable outcome of one run of main.
 type Run struct {
-	Exit       int                `json:"exit"`
-	ExitCalled bool               `json:"exit_called"`
-	Panic      string             `json:"panic,omitempty"`
-	PanicStack string             `json:"panic_stack,omitempty"`
-	Stdout     FileSum            `json:"stdout"`
-	Stderr     FileSum            `json:"stderr"`
-	StderrHead string             `json:"stderr_head,omitempty"`
-	Files      map[string]FileSum `json:"files,omitempty"`
-	OutFile    string             `json:"out_file,omitempty"`
-	OutLen     int                `json:"out_len"`
-	OutGoOK    bool               `json:"out_go_ok"`
-	OutGoErr   string             `json:"out_go_err,omitempty"`
-	Fired      simos.Fired        `json:"fired"`
-	Map        simmap.Stats       `json:"map"`
-	StdoutFull []byte             `json:"stdout_full,omitempty"`
-	StderrFull []byte             `json:"stderr_full,omitempty"`
-	FilesFull  map[string][]byte  `json:"files_full,omitempty"`
+	Exit          int                `json:"exit"`
+	ExitCalled    bool               `json:"exit_called"`
+	Panic         string             `json:"panic,omitempty"`
+	PanicStack    string             `json:"panic_stack,omitempty"`
+	Stdout        FileSum            `json:"stdout"`
+	Stderr        FileSum            `json:"stderr"`
+	StderrHead    string             `json:"stderr_head,omitempty"`
+	Files         map[string]FileSum `json:"files,omitempty"`
+	OutFile       string             `json:"out_file,omitempty"`
+	OutLen        int                `json:"out_len"`
+	OutGoOK       bool               `json:"out_go_ok"`
+	OutGoErr      string             `json:"out_go_err,omitempty"`
+	OutUnresolved string             `json:"out_unresolved,omitempty"` // a method the emitted grammar refers to but the file does not define
+	Fired         simos.Fired        `json:"fired"`
+	Map           simmap.Stats       `json:"map"`
+	StdoutFull    []byte             `json:"stdout_full,omitempty"`
+	StderrFull    []byte             `json:"stderr_full,omitempty"`
+	FilesFull     map[string][]byte  `json:"files_full,omitempty"`
 }
 
 // Result is the answer to a Case.
@@ -127,6 +136,8 @@ func RunOnce(mainFn func(), c *Case) (r Run) {
 		r.OutGoOK = err == nil
 		if err != nil {
 			r.OutGoErr = strings.SplitN(err.Error(), "\n", 2)[0]
+		} else {
+			r.OutUnresolved = unresolvedMethods(out)
 		}
 	}
 	if c.Full {
@@ -141,7 +152,7 @@ func RunOnce(mainFn func(), c *Case) (r Run) {
 
 // Serve reads cases from stdin and writes results to stdout, one JSON value
 // per line, until EOF.
-func Serve(mainFn func()) {
+func Serve(mainFn func(), rebuild RebuildFunc) {
 	// a runaway allocation in the code under test must kill this child, not the sandbox
 	lim := syscall.Rlimit{Cur: 6 << 30, Max: 6 << 30}
 	syscall.Setrlimit(syscall.RLIMIT_AS, &lim)
@@ -159,12 +170,99 @@ func Serve(mainFn func()) {
 		if n < 1 {
 			n = 1
 		}
-		for i := 0; i < n; i++ {
-			res.Runs = append(res.Runs, RunOnce(mainFn, &c))
+		if c.Mode == "rebuild" && rebuild != nil {
+			res.Runs = runRebuild(rebuild, &c)
+		} else {
+			for i := 0; i < n; i++ {
+				res.Runs = append(res.Runs, RunOnce(mainFn, &c))
+			}
 		}
 		if err := enc.Encode(&res); err != nil {
 			os.Exit(3)
 		}
 		out.Flush()
 	}
+}
+
+// unresolvedMethods checks that the emitted file is self-contained with
+// respect to its own methods: every method value (*T).name it mentions is a
+// method the file declares on T. (A parser that refers to code-block glue it
+// never emitted is not a complete parser, even if it is syntactically valid.)
+func unresolvedMethods(src []byte) string {
+	fset := token.NewFileSet()
+	f, err := parser.ParseFile(fset, "out.go", src, 0)
+	if err != nil {
+		f, err = parser.ParseFile(fset, "out.go", append([]byte("package p\n"), src...), 0)
+		if err != nil {
+			return ""
+		}
+	}
+	declared := map[string]bool{}
+	for _, d := range f.Decls {
+		fd, ok := d.(*ast.FuncDecl)
+		if !ok || fd.Recv == nil || len(fd.Recv.List) == 0 {
+			continue
+		}
+		t := fd.Recv.List[0].Type
+		if st, ok := t.(*ast.StarExpr); ok {
+			t = st.X
+		}
+		if id, ok := t.(*ast.Ident); ok {
+			declared[id.Name+"."+fd.Name.Name] = true
+		}
+	}
+	missing := ""
+	ast.Inspect(f, func(n ast.Node) bool {
+		sel, ok := n.(*ast.SelectorExpr)
+		if !ok || missing != "" {
+			return missing == ""
+		}
+		par, ok := sel.X.(*ast.ParenExpr)
+		if !ok {
+			return true
+		}
+		st, ok := par.X.(*ast.StarExpr)
+		if !ok {
+			return true
+		}
+		id, ok := st.X.(*ast.Ident)
+		if !ok {
+			return true
+		}
+		if !declared[id.Name+"."+sel.Sel.Name] {
+			missing = "(*" + id.Name + ")." + sel.Sel.Name
+		}
+		return true
+	})
+	return missing
+}
+
+func runRebuild(rebuild RebuildFunc, c *Case) (runs []Run) {
+	simos.Reset(append([]string{"pigeon"}, c.Args...), c.Stdin, c.Files, c.Dirs, simos.NoFaults())
+	simmap.Configure(c.MapMode, c.MapSeed, true)
+	g := c.Stdin
+	if b, ok := c.Files["grammar.peg"]; ok {
+		g = b
+	}
+	var o1, o2 []byte
+	var e1, e2, pan string
+	func() {
+		defer func() {
+			if e := recover(); e != nil {
+				pan = fmt.Sprint(e)
+			}
+		}()
+		o1, o2, e1, e2 = rebuild(c, g)
+	}()
+	mk := func(o []byte, e string) Run {
+		r := Run{Stdout: sum(o), Stderr: sum([]byte(e)), StderrHead: e, OutLen: len(o), Panic: pan, Map: simmap.Snapshot()}
+		if e != "" {
+			r.Exit = 5
+		}
+		if c.Full {
+			r.StdoutFull = o
+		}
+		return r
+	}
+	return []Run{mk(o1, e1), mk(o2, e2)}
 }
